@@ -30,6 +30,23 @@ def run(tier):
         payload(res, facts)
     wrap(res, facts)
     writers(res, facts)
+    # R6: what build_payload_from_claims returns is what the core builder signs / encrypts (the eight generic producers interpreted with
+    # the layer below summarised): no rewriting of the finished JSON text on the way
+    from .. import layers
+    from .. import skeleton as S_
+    for eid, (fs, und) in sorted(layers.generic_producers(facts, S_.entry_points(facts)).items()):
+        if fs is None:
+            res.oblige(False)
+            res.violate("C14.R6", eid, "generic producer not decided by the abstract interpreter", str(und)[:300])
+            continue
+        for f in fs:
+            if f.rule != "C14.R6":
+                continue
+            res.oblige(f.ok)
+            if f.ok:
+                res.inst("C14.R6", f.desc)
+            else:
+                res.violate("C14.R6", f.where, f.construct, f.msg, file=f.file, line=f.line)
     for f in CL.analyse(facts):
         if f.rule == "C14.R4":
             res.oblige(f.ok)
@@ -42,6 +59,7 @@ def run(tier):
     res.floor("C14.R3", 13)
     res.floor("C14.R4", 1)
     res.floor("C14.R5", 10)
+    res.floor("C14.R6", 8)
     res.explanation = ("constant table of the 7 registered claim keys over all 17 constructors; every Serialize impl of a claim writes exactly one map entry (key field, value field); abstract interpretation of GenericBuilder::set_claim over "
                        "{empty key} x JSON variant x {one-entry map of that key}: stored under the claim's key with HashMap::insert, value = the entry's value for a one-entry map of that key, otherwise the serialised value itself; "
                        "build_payload_from_claims maps every stored (key, value) to (key, to_value(value)) without further transformation; wrap_claims / wrap_value hand every entry on (identity on scalars, element-wise on arrays and objects, no filtering adaptor); writers of the claim map; the parser returns the parsed authenticated payload unmodified")
